@@ -197,6 +197,7 @@ func (w *world) judgeEntry(e entry) {
 	w.pending = nil
 	if len(e.logs) > 0 {
 		w.nonEmpty++
+		d.Probe("entry-with-logs")
 		if len(e.logs) > 12 {
 			d.Probe("entry-more-than-12-logs")
 		}
